@@ -109,11 +109,86 @@ Proof.
     eapply inv_after_item; eauto.
 Qed.
 
+(* what a rejection says is true of the text: the named culprit is the field at the cursor *)
+Definition reject_ok (e : perr) : Prop :=
+  match e with
+  | EBadField t c => exists pre post ty l, toks0 = pre ++ (t, c) :: post /\ fparse ty l c = false
+  | EMissing t => exists pre post, toks0 = pre ++ post /\ t_detect post t = false
+  | EUnparsed => exists pre post, toks0 = pre ++ post /\ post <> []
+  | _ => True
+  end.
+
 Definition flow_inv (f : flow (list tok)) : Prop :=
   match f with
   | FNext _ s | FBreak _ s | FReturnOk _ s => Inv s
+  | FReject _ e => reject_ok e
   | _ => True
   end.
+
+Lemma first_letter_none : forall (c : list tok) base ls,
+  first_letter _ t_detect c base ls = None -> t_detect c base = false.
+Proof.
+  intros c base ls. induction ls as [|l r IH]; cbn [first_letter]; intro H.
+  - destruct (t_detect c base); [discriminate|reflexivity].
+  - destruct (t_detect c (base ++ l)); [discriminate|apply IH; exact H].
+Qed.
+
+Lemma extract_field_notfound : forall (s : cstate) tag opt,
+  extract_field _ t_detect t_extract s tag opt = XNotFound _ -> t_detect (cur s) tag = false.
+Proof.
+  intros s tag opt H. unfold extract_field in H.
+  destruct (negb (dup s) && mem tag (seen s) && negb opt); [discriminate|].
+  destruct (t_detect (cur s) tag) eqn:Ed; [|reflexivity].
+  destruct (t_extract (cur s) tag) as [[c c']|] eqn:Ex; [discriminate|].
+  unfold t_detect in Ed. unfold t_extract in Ex. destruct (cur s) as [|[t x] r]; [discriminate|].
+  rewrite Ed in Ex. discriminate.
+Qed.
+
+Lemma extract_field_dup : forall (s : cstate) tag opt e,
+  extract_field _ t_detect t_extract s tag opt = XErr _ e -> e = EDuplicate tag.
+Proof.
+  intros s tag opt e H. unfold extract_field in H.
+  destruct (negb (dup s) && mem tag (seen s) && negb opt); [inversion H; reflexivity|].
+  destruct (t_detect (cur s) tag); [|discriminate].
+  destruct (t_extract (cur s) tag) as [[c c']|]; discriminate.
+Qed.
+
+Lemma call_err : forall x (s : cstate) e s' d,
+  call _ t_detect t_extract fparse x s = Some (CErr _ e s', d) -> Inv s -> reject_ok e.
+Proof.
+  intros x s e s' d H [H1 _]. destruct x; cbn [call] in H; try discriminate; inversion H as [[Hc Hd]]; clear H.
+  - unfold call_req in Hc.
+    destruct (extract_field _ t_detect t_extract s tag false) as [content s1|e1|] eqn:Ex.
+    + destruct (fparse ty None content) eqn:Ep; [discriminate|]. inversion Hc; subst.
+      destruct (extract_field_ok _ _ _ _ _ Ex) as [A _].
+      exists (map tok_of (rev (items s))), (cur s'), ty, None. rewrite <- A. split; [symmetry; exact H1|exact Ep].
+    + inversion Hc; subst. rewrite (extract_field_dup _ _ _ _ Ex). exact I.
+    + inversion Hc; subst. exists (map tok_of (rev (items s'))), (cur s'). split; [symmetry; exact H1|].
+      eapply extract_field_notfound; exact Ex.
+  - unfold call_opt in Hc.
+    destruct (negb (t_detect (cur s) tag)); [discriminate|].
+    destruct (extract_field _ t_detect t_extract s tag true) as [content s1|e1|] eqn:Ex; try discriminate.
+    destruct (fparse ty None content) eqn:Ep; [discriminate|]. inversion Hc; subst.
+    destruct (extract_field_ok _ _ _ _ _ Ex) as [A _].
+    exists (map tok_of (rev (items s))), (cur s'), ty, None. rewrite <- A. split; [symmetry; exact H1|exact Ep].
+  - unfold call_reqv in Hc.
+    destruct (first_letter _ t_detect (cur s) base letters7) as [l|] eqn:El.
+    + destruct (extract_field _ t_detect t_extract s (base ++ l) false) as [content s1|e1|] eqn:Ex.
+      * destruct (fparse fam (Some l) content) eqn:Ep; [discriminate|]. inversion Hc; subst.
+        destruct (extract_field_ok _ _ _ _ _ Ex) as [A _].
+        exists (map tok_of (rev (items s))), (cur s'), fam, (Some l). rewrite <- A. split; [symmetry; exact H1|exact Ep].
+      * inversion Hc; subst. rewrite (extract_field_dup _ _ _ _ Ex). exact I.
+      * inversion Hc; subst. exists (map tok_of (rev (items s'))), (cur s'). split; [symmetry; exact H1|].
+        eapply extract_field_notfound; exact Ex.
+    + inversion Hc; subst. exists (map tok_of (rev (items s'))), (cur s'). split; [symmetry; exact H1|].
+      eapply first_letter_none; exact El.
+  - unfold call_optv in Hc.
+    destruct (first_letter _ t_detect (cur s) base letters7) as [l|] eqn:El; [|discriminate].
+    destruct (extract_field _ t_detect t_extract s (base ++ l) true) as [content s1|e1|] eqn:Ex; try discriminate.
+    destruct (fparse fam (Some l) content) eqn:Ep; [discriminate|]. inversion Hc; subst.
+    destruct (extract_field_ok _ _ _ _ _ Ex) as [A _].
+    exists (map tok_of (rev (items s))), (cur s'), fam, (Some l). rewrite <- A. split; [symmetry; exact H1|exact Ep].
+Qed.
 
 Lemma dropfree_pick_arm : forall l arms d,
   forallb (fun a => match a with (_, b) => forallb dropfree_stmt b end) arms = true ->
@@ -135,13 +210,17 @@ Proof.
   fold (dropfree r) in Hr.
   destruct x.
   - (* SReq *) destruct (call _ _ _ _ (SReq ty tag d) s) as [[[p s'|e s'] d']|] eqn:Ec; try exact I.
-    apply IH; [exact Hr|]. apply inv_bind. eapply call_inv; eauto.
+    + apply IH; [exact Hr|]. apply inv_bind. eapply call_inv; eauto.
+    + cbn [flow_inv]. eapply call_err; eauto.
   - destruct (call _ _ _ _ (SOpt ty tag d) s) as [[[p s'|e s'] d']|] eqn:Ec; try exact I.
-    apply IH; [exact Hr|]. apply inv_bind. eapply call_inv; eauto.
+    + apply IH; [exact Hr|]. apply inv_bind. eapply call_inv; eauto.
+    + cbn [flow_inv]. eapply call_err; eauto.
   - destruct (call _ _ _ _ (SReqV fam base d) s) as [[[p s'|e s'] d']|] eqn:Ec; try exact I.
-    apply IH; [exact Hr|]. apply inv_bind. eapply call_inv; eauto.
+    + apply IH; [exact Hr|]. apply inv_bind. eapply call_inv; eauto.
+    + cbn [flow_inv]. eapply call_err; eauto.
   - destruct (call _ _ _ _ (SOptV fam base d) s) as [[[p s'|e s'] d']|] eqn:Ec; try exact I.
-    apply IH; [exact Hr|]. apply inv_bind. eapply call_inv; eauto.
+    + apply IH; [exact Hr|]. apply inv_bind. eapply call_inv; eauto.
+    + cbn [flow_inv]. eapply call_err; eauto.
   - apply IH; [exact Hr|apply inv_set_dup; exact HI].
   - apply IH; [exact Hr|apply inv_set_env; exact HI].
   - apply IH; [exact Hr|apply inv_set_env; exact HI].
@@ -172,7 +251,10 @@ Proof.
     apply IH; assumption.
   - discriminate.
   - discriminate.
-  - (* SVerifyComplete *) destruct (t_complete (cur s)) eqn:Ec; [|exact I].
+  - (* SVerifyComplete *) destruct (t_complete (cur s)) eqn:Ec.
+    2:{ cbn [flow_inv reject_ok]. destruct HI as [H1 _].
+        exists (map tok_of (rev (items s))), (cur s). split; [symmetry; exact H1|].
+        unfold t_complete in Ec. destruct (cur s); [discriminate|discriminate]. }
     apply IH; [exact Hr|]. destruct HI as [H1 [H2 H3]]. unfold Inv, set_verified. cbn [cur items verified].
     split; [exact H1|]. split; [|exact H3]. intros _.
     unfold t_complete in Ec. destruct (cur s); [reflexivity|discriminate].
@@ -299,4 +381,52 @@ Proof.
   { eapply (exec_ret_verified fparse fuel L (init _ toks) s false); [exact Hrg|discriminate|exact Ee]. }
   rewrite (H2 Hv), app_nil_r in H1. split; [exact H1|].
   apply Forall_rev. exact H3.
+Qed.
+
+(* ---- C09, token level: what a rejection names is the culprit *)
+Theorem reject_sound : forall fparse L fuel toks e,
+  dropfree L = true ->
+  trun fparse fuel L toks = Reject e ->
+  reject_ok fparse toks e.
+Proof.
+  intros fparse L fuel toks e Hdf Hrun. unfold trun, run in Hrun.
+  assert (HI0 : Inv fparse toks (init _ toks)).
+  { unfold Inv, init. cbn. split; [reflexivity|]. split; [discriminate|constructor]. }
+  pose proof (exec_inv fparse toks fuel L _ Hdf HI0) as HI. unfold texec in HI.
+  destruct (exec _ _ _ _ _ fuel L (init _ toks)) as [s|s|s|e'| |]; try discriminate.
+  inversion Hrun; subst. exact HI.
+Qed.
+
+(* a mandatory field that is not the next field of the text is reported missing, by name *)
+Theorem req_missing : forall fparse fuel ty tag d r (s : st (list tok)),
+  t_detect (cur s) tag = false -> (dup s = true \/ mem tag (seen s) = false) ->
+  texec fparse (S fuel) (SReq ty tag d :: r) s = FReject _ (EMissing tag).
+Proof.
+  intros fparse fuel ty tag d r s Hd Hs. unfold texec. cbn [exec call]. unfold call_req, extract_field.
+  rewrite Hd.
+  assert (Hn : negb (dup s) && mem tag (seen s) && negb false = false).
+  { destruct Hs as [Hs|Hs]; rewrite Hs; cbn; [reflexivity|]. rewrite andb_false_r. reflexivity. }
+  rewrite Hn. reflexivity.
+Qed.
+
+(* a field whose content its parser rejects is reported with its tag and content *)
+Theorem req_badfield : forall fparse fuel ty tag d r (s : st (list tok)) content rest,
+  cur s = (tag, content) :: rest -> (dup s = true \/ mem tag (seen s) = false) ->
+  fparse ty None content = false ->
+  texec fparse (S fuel) (SReq ty tag d :: r) s = FReject _ (EBadField tag content).
+Proof.
+  intros fparse fuel ty tag d r s content rest Hc Hs Hp. unfold texec. cbn [exec call]. unfold call_req, extract_field.
+  assert (Hn : negb (dup s) && mem tag (seen s) && negb false = false).
+  { destruct Hs as [Hs|Hs]; rewrite Hs; cbn; [reflexivity|]. rewrite andb_false_r. reflexivity. }
+  rewrite Hn. rewrite Hc. unfold t_detect, t_extract. rewrite bytes_eqb_refl. rewrite Hp. reflexivity.
+Qed.
+
+Theorem opt_badfield : forall fparse fuel ty tag d r (s : st (list tok)) content rest,
+  cur s = (tag, content) :: rest ->
+  fparse ty None content = false ->
+  texec fparse (S fuel) (SOpt ty tag d :: r) s = FReject _ (EBadField tag content).
+Proof.
+  intros fparse fuel ty tag d r s content rest Hc Hp. unfold texec. cbn [exec call]. unfold call_opt, extract_field.
+  rewrite Hc. unfold t_detect, t_extract. rewrite bytes_eqb_refl. cbn [negb].
+  rewrite andb_false_r. rewrite Hp. reflexivity.
 Qed.
